@@ -237,7 +237,7 @@ func NewOpLib() *OpLib {
 	l := &OpLib{}
 	// ---- environment
 	l.Add("empty", "empty", 0, func(w *World, p *BlockPlan) {})
-	for _, pr := range []string{"5", "4", "3", "6.5", "8", "2", "12"} {
+	for _, pr := range []string{"5", "4", "3", "6.5", "8", "2", "12", "1"} {
 		pr := pr
 		l.Add("price_atom_"+pr, "price", 1, func(w *World, p *BlockPlan) { p.SetAtom = pr })
 	}
@@ -354,6 +354,7 @@ func NewOpLib() *OpLib {
 	exit("exit_p2_all_lp1", "lp1", 2, 1, 1, 0, "")
 	exit("exit_p2_all_t1", "t1", 2, 1, 1, 0, "")
 	exit("exit_p1_1share_lp1", "lp1", 1, 0, 1, -1, "")
+	exit("exit_p1_90pct_lp1", "lp1", 1, 9, 10, 0, "")
 	l.Add("create_pool_lp1", "createpool", 0, func(w *World, p *BlockPlan) {
 		p.Txs = one("lp1", mkPoolMsg(w.A("lp1"), false, "uatom", 4e6, 5e6, 80, 20, "0.01"))
 	})
@@ -428,6 +429,8 @@ func NewOpLib() *OpLib {
 	l.Add("llp_open_t1_x2_again", "llp_open", 0, func(w *World, p *BlockPlan) { p.Txs = one("t1", llpOpen(w.A("t1"), "2", 5e8, "0")) })
 	l.Add("llp_open_t2_x5", "llp_open", 0, func(w *World, p *BlockPlan) { p.Txs = one("t2", llpOpen(w.A("t2"), "5", 1e11, "0")) })
 	l.Add("llp_open_t3_x9", "llp_open", 0, func(w *World, p *BlockPlan) { p.Txs = one("t3", llpOpen(w.A("t3"), "9", 1e9, "0")) })
+	l.Add("llp_open_t2_x5_big", "llp_open", 0, func(w *World, p *BlockPlan) { p.Txs = one("t2", llpOpen(w.A("t2"), "5", 3e11, "0")) })
+	l.Add("llp_open_t3_x5_big", "llp_open", 0, func(w *World, p *BlockPlan) { p.Txs = one("t3", llpOpen(w.A("t3"), "5", 5e10, "0")) })
 	l.Add("llp_open_t3_dust", "llp_open", 0, func(w *World, p *BlockPlan) { p.Txs = one("t3", llpOpen(w.A("t3"), "2", 10, "0")) })
 	llpClose := func(name, owner string, num, den, minus int64) {
 		l.Add(name, "llp_close", 0, func(w *World, p *BlockPlan) {
@@ -485,6 +488,7 @@ func NewOpLib() *OpLib {
 		})
 	}
 	bond("bond_lp1_L", "lp1", 1e11)
+	bond("bond_lp1_XL", "lp1", 5e12)
 	bond("bond_lp1_D", "lp1", 1)
 	bond("bond_lp2_D", "lp2", 3)
 	unbond := func(name, who string, num, den, minus int64) {
